@@ -118,10 +118,22 @@ func vfLogIds(m *crew.Machine) []string {
 // ---- message generator: routed and unrouted messages with a hop budget -------
 
 type vfGen struct {
-	c    *sim.Ctx
-	mids []string
-	n    int
-	fail bool
+	c     *sim.Ctx
+	mids  []string
+	n     int
+	fail  bool
+	spawn bool // emitted messages may ask the captain to create a new machine mid-cascade
+	nlate int
+}
+
+// spawnMsg asks the captain for a new recorder machine.
+func (g *vfGen) spawnMsg() map[string]interface{} {
+	g.nlate++
+	name := fmt.Sprintf("late%d", g.nlate)
+	b, _ := json.Marshal(vfRecorderSpec())
+	var spec interface{}
+	json.Unmarshal(b, &spec)
+	return map[string]interface{}{"id": g.id(), "to": "captain", "update": map[string]interface{}{name: map[string]interface{}{"spec": map[string]interface{}{"inline": spec}}}}
 }
 
 func (g *vfGen) id() string { g.n++; return fmt.Sprintf("m%d", g.n) }
@@ -178,6 +190,9 @@ func (g *vfGen) message(hops int) map[string]interface{} {
 				var l []interface{}
 				for i := 1 + c.Intn(2, "nemit"); i > 0; i-- {
 					l = append(l, g.message(hops-1))
+				}
+				if g.spawn && c.Chance(1, 5, "spawn") {
+					l = append(l, g.spawnMsg())
 				}
 				em[mid] = l
 			}
@@ -246,51 +261,119 @@ func vfRecipients(msg interface{}, present map[string]bool) []string {
 // vfModel predicts, for one submitted message, who sees which message how often
 // and what each machine emits (a reference router, breadth-first).
 type vfModel struct {
-	seen    map[string][]string // machine -> message ids in processing order
-	depth   map[string]int      // message id -> depth
-	batches []string            // canonical emission batches (one per machine per message that emitted)
-	count   int
+	seen     map[string][]string        // machine -> message ids it must see
+	optional map[string]map[string]bool // machine -> message ids it may or may not see
+	depth    map[string]int             // message id -> depth
+	batches  []string                   // canonical emission batches (one per machine per message that emitted)
+	count    int
+	spawned  map[string]int // machines created during this cascade -> depth of the creating message
 }
 
+// vfPredict mutates present/recorders when the cascade creates machines.
+//
+// A machine created by a message of depth d certainly does not exist for
+// messages of smaller depth, certainly exists for deeper ones (the crew is
+// breadth-first), and may or may not exist yet for other messages of depth d
+// (the order within a round is unspecified).  Late machines are never told to
+// emit, so the message tree itself does not depend on that order.
 func vfPredict(msg map[string]interface{}, present map[string]bool, recorders map[string]bool) *vfModel {
-	md := &vfModel{seen: map[string][]string{}, depth: map[string]int{}}
+	md := &vfModel{seen: map[string][]string{}, optional: map[string]map[string]bool{}, depth: map[string]int{}, spawned: map[string]int{}}
 	type item struct {
 		m interface{}
 		d int
 	}
-	queue := []item{{msg, 0}}
-	for len(queue) > 0 {
-		it := queue[0]
-		queue = queue[1:]
-		md.count++
-		mm, _ := it.m.(map[string]interface{})
-		id := fmt.Sprint(mm["id"])
-		md.depth[id] = it.d
-		for _, mid := range vfRecipients(it.m, present) {
-			if !recorders[mid] {
-				continue
-			}
-			var emits []interface{}
-			if em, ok := mm["emit"].(map[string]interface{}); ok {
-				emits, _ = em[mid].([]interface{})
-			}
-			failAfter := -1
-			if fm, ok := mm["fail"].(map[string]interface{}); ok {
-				if f, ok := fm[mid].(float64); ok {
-					failAfter = int(f)
+	for pass := 0; pass < 2; pass++ {
+		md.seen = map[string][]string{}
+		md.batches = nil
+		md.count = 0
+		queue := []item{{msg, 0}}
+		for len(queue) > 0 {
+			it := queue[0]
+			queue = queue[1:]
+			md.count++
+			mm, _ := it.m.(map[string]interface{})
+			id := fmt.Sprint(mm["id"])
+			md.depth[id] = it.d
+			if to, _ := mm["to"].(string); to == "captain" && pass == 0 {
+				if up, ok := mm["update"].(map[string]interface{}); ok {
+					for name := range up {
+						if !present[name] {
+							if d, seen := md.spawned[name]; !seen || it.d < d {
+								md.spawned[name] = it.d
+							}
+						}
+					}
 				}
 			}
-			if failAfter >= 0 {
-				continue // a failing action emits nothing (and records nothing: its bindings are discarded)
+			if pass == 0 {
+				// only the message tree matters in the first pass
 			}
-			md.seen[mid] = append(md.seen[mid], id)
-			if len(emits) > 0 {
-				md.batches = append(md.batches, ref.Canon(emits))
-				for _, e := range emits {
-					queue = append(queue, item{e, it.d + 1})
+			now := map[string]bool{}
+			for m := range present {
+				now[m] = true
+			}
+			maybe := map[string]bool{}
+			for name, d := range md.spawned {
+				switch {
+				case it.d > d:
+					now[name] = true
+				case it.d == d:
+					maybe[name] = true
+				}
+			}
+			for _, mid := range vfRecipients(it.m, now) {
+				if !recorders[mid] && md.spawned[mid] == 0 {
+					if _, late := md.spawned[mid]; !late {
+						continue
+					}
+				}
+				if _, late := md.spawned[mid]; late {
+					md.seen[mid] = append(md.seen[mid], id)
+					continue
+				}
+				var emits []interface{}
+				if em, ok := mm["emit"].(map[string]interface{}); ok {
+					emits, _ = em[mid].([]interface{})
+				}
+				failAfter := -1
+				if fm, ok := mm["fail"].(map[string]interface{}); ok {
+					if f, ok := fm[mid].(float64); ok {
+						failAfter = int(f)
+					}
+				}
+				if failAfter >= 0 {
+					continue // a failing action emits nothing (and records nothing: its bindings are discarded)
+				}
+				md.seen[mid] = append(md.seen[mid], id)
+				if len(emits) > 0 {
+					md.batches = append(md.batches, ref.Canon(emits))
+					for _, e := range emits {
+						queue = append(queue, item{e, it.d + 1})
+					}
+				}
+			}
+			if pass == 1 {
+				withMaybe := map[string]bool{}
+				for m := range now {
+					withMaybe[m] = true
+				}
+				for m := range maybe {
+					withMaybe[m] = true
+				}
+				for _, mid := range vfRecipients(it.m, withMaybe) {
+					if maybe[mid] {
+						if md.optional[mid] == nil {
+							md.optional[mid] = map[string]bool{}
+						}
+						md.optional[mid][id] = true
+					}
 				}
 			}
 		}
+	}
+	for name := range md.spawned {
+		present[name] = true
+		recorders[name] = true
 	}
 	sort.Strings(md.batches)
 	return md
